@@ -841,7 +841,7 @@ func ruleYieldDiscipline(r *Run, rule string, fn *Func, visitors map[string]bool
 	r.Funcs[fn.Key] = true
 	if paths, ok := fl.Paths(); ok {
 		r.Paths += len(paths)
-		check(fl, paths)
+		check(fl, append(append([]Path{}, paths...), fl.Truncated()...))
 	}
 	var all []*ast.FuncLit
 	ast.Inspect(fn.Decl.Body, func(nn ast.Node) bool {
@@ -852,7 +852,7 @@ func ruleYieldDiscipline(r *Run, rule string, fn *Func, visitors map[string]bool
 	})
 	for _, l := range all {
 		if lf, lp, ok := r.litPaths(rule, l); ok {
-			check(lf, lp)
+			check(lf, append(append([]Path{}, lp...), lf.Truncated()...))
 		}
 	}
 	return n
